@@ -1,0 +1,24 @@
+//go:build verif
+// +build verif
+
+package js_printer
+
+import (
+	"fmt"
+	"strings"
+
+	"github.com/evanw/esbuild/internal/ast"
+)
+
+// verifSymbolTag returns a comment that names the symbol an identifier about
+// to be printed is bound to: /*@S<source>.<inner>.<kind>.<flags>.<original name>*/
+func verifSymbolTag(symbols ast.SymbolMap, ref ast.Ref) string {
+	ref = ast.FollowSymbols(symbols, ref)
+	symbol := symbols.Get(ref)
+	flags := 0
+	if symbol.Flags.Has(ast.MustNotBeRenamed) {
+		flags |= 1
+	}
+	name := strings.ReplaceAll(symbol.OriginalName, "*/", "*_/")
+	return fmt.Sprintf("/*@S%d.%d.%d.%d.%s*/", ref.SourceIndex, ref.InnerIndex, symbol.Kind, flags, name)
+}
